@@ -52,6 +52,10 @@ def gen_cases(tier, seed):
                     for restricted in (False, True):
                         cases.append({"type": "init", "kind": kind, "norb": norb, "nelec": [na, nb], "class": cls, "restricted": restricted,
                                       "s": int(rng.integers(1 << 30)), "group": "init-%s-%d" % (kind, norb)})
+    for kind, wt in (("uhf", "uhf"), ("rhf", "rhf"), ("noci", "uhf"), ("uhf", "rhf"), ("uhf", "cpmc")):
+        for rep in range(2 if q else 6):
+            cases.append({"type": "given", "kind": kind, "wt": wt, "norb": 4, "nelec": [2, 2] if (wt == "rhf" and kind == "rhf") or wt == "cpmc" else [2, 1],
+                          "s": int(rng.integers(1 << 30)), "group": "given-%s-%s" % (kind, wt), "cost": 3})
     for wt, ad in (("rhf", None), ("uhf", "forward")):
         cases.append({"type": "driver", "wt": wt, "ad_mode": ad, "s": int(rng.integers(1 << 30)), "group": "drv-%s" % wt, "cost": 40})
     if q:
@@ -311,7 +315,65 @@ def run_init(case):
             "counters": cnt}
 
 
+def run_given(case):
+    """init_prop_data with user-supplied (non-orthonormal, differently scaled) walkers: norms x walkers must still be the supplied states"""
+    import jax.numpy as jnp
+
+    from vlib import afqmc
+
+    rng = np.random.default_rng(case["s"])
+    norb = case["norb"]
+    na, nb = case["nelec"]
+    nw = 5
+    F = fockref.get(norb)
+    cp = case["wt"] == "cpmc"
+    S = afqmc.make_system(case["kind"], norb, (na, nb), rng, walker_type="uhf" if cp else case["wt"], dt=0.01, n_walkers=nw, nchol=2, orthonormal=True)
+    trial, wd_, hd = S["trial"], S["wave_data"], S["ham_data"]
+    psi = S["t"]["psi"]
+    scales = 10.0 ** rng.uniform(-1, 1, size=(nw, 1, 1))
+    cplx = 0.0 if cp else 1.0
+    up = (rng.normal(size=(nw, norb, na)) + 1j * cplx * rng.normal(size=(nw, norb, na))) * scales
+    dn = (rng.normal(size=(nw, norb, nb)) + 1j * cplx * rng.normal(size=(nw, norb, nb))) * scales
+    if cp:
+        from ad_afqmc import propagation, wavefunctions
+
+        prop = propagation.propagator_cpmc(dt=0.01, n_walkers=nw)
+        trial = wavefunctions.uhf_cpmc(norb, (na, nb))
+        hd = dict(hd)
+        hd["u"] = 4.0
+        given = [jnp.array(up + 0j), jnp.array(dn + 0j)]
+    elif case["wt"] == "rhf":
+        prop = S["prop"]
+        given = jnp.array(up)
+    else:
+        prop = S["prop"]
+        given = [jnp.array(up), jnp.array(dn)]
+    pd = prop.init_prop_data(trial, wd_, hd, given)
+    W = afqmc.np_walkers(pd["walkers"])
+    norms = np.asarray(pd["norms"]) if "norms" in pd else np.ones(nw)
+    ov = np.asarray(pd["overlaps"])
+    worst = {"state": 0.0, "overlap": 0.0}
+    for k in range(nw):
+        if case["wt"] == "rhf":
+            ref = F.det(up[k][:, :na], up[k][:, :nb])
+            got = norms[k] * F.det(W[k][:, :na], W[k][:, :nb])
+        else:
+            ref = F.det(up[k], dn[k])
+            got = norms[k] * F.det(W[0][k], W[1][k])
+        nr = np.linalg.norm(ref)
+        worst["state"] = max(worst["state"], float(np.linalg.norm(got - ref) / nr))
+        worst["overlap"] = max(worst["overlap"], float(abs(ov[k] * norms[k] / (norms[k] if "normed_overlaps" not in pd else 1.0) - np.vdot(psi, ref)) / (np.linalg.norm(psi) * nr)) if False else
+                               float(abs(ov[k] - np.vdot(psi, ref)) / (np.linalg.norm(psi) * nr)))
+    key = "C13/given/%s/%s" % (case["kind"], case["wt"])
+    events = [judge("given/population-preserved", worst["state"], 1e-10, key + "/state"),
+              judge("given/stored-overlap-of-supplied-state", worst["overlap"], 1e-10, key + "/overlap")]
+    return {"events": events, "nontrivial": True, "sample": {"kind": case["kind"], "wt": case["wt"], "worst": worst, "norms": norms[:3].tolist()},
+            "counters": {"init_calls": 1}}
+
+
 def run_case(case):
+    if case["type"] == "given":
+        return run_given(case)
     if case["type"] == "driver":
         from vlib import contracts
 
